@@ -220,6 +220,9 @@ func runSequence(t *testing.T, plan Plan, gen func(w *World) Generator, mkOracle
 			defer w.Close()
 			defer func() {
 				// never leave parked goroutines behind
+				if ss, ok := w.sched.(*seqSched); ok {
+					ss.drain = true
+				}
 				w.sched.afterRequest(w)
 			}()
 			if plan.Cfg.WholeSecondClock {
